@@ -456,3 +456,52 @@ pub fn fplus(centres: Vec<usize>, min_pieces: usize, label: &str) -> Family {
 pub fn interior_squares() -> Vec<usize> {
     (0..64).filter(|i| i % 8 > 0 && i % 8 < 7 && i / 8 > 0 && i / 8 < 7).collect()
 }
+
+/// R C E r c e
+pub const KINDS6B: [usize; 6] = [0, 1, 5, 6, 7, 11];
+
+/// F4W: 4 pieces whose bounding box fits a 3x3 window (any of the 36 windows, each quadruple once), reduced kinds.
+pub fn f4w(kinds: &'static [usize], label: &str) -> Family {
+    let mut quads: Vec<[u8; 4]> = Vec::new();
+    for a in 0..64usize {
+        for b in (a + 1)..64 {
+            for c in (b + 1)..64 {
+                for d in (c + 1)..64 {
+                    let fs = [a % 8, b % 8, c % 8, d % 8];
+                    let rs = [a / 8, b / 8, c / 8, d / 8];
+                    if fs.iter().max().unwrap() - fs.iter().min().unwrap() > 2 || rs.iter().max().unwrap() - rs.iter().min().unwrap() > 2 {
+                        continue;
+                    }
+                    quads.push([a as u8, b as u8, c as u8, d as u8]);
+                }
+            }
+        }
+    }
+    let nk = kinds.len() as u64;
+    let n = quads.len() as u64 * nk.pow(4) * 2;
+    Family {
+        name: format!("F4W (4 pieces inside a 3x3 window, all 36 windows; kinds {}; {} square quadruples x {}^4 x 2 sides)", label, quads.len(), nk),
+        n,
+        how: 0,
+        setups: None,
+        decode: Box::new(move |idx| {
+            let side = idx % 2 == 0;
+            let mut x = idx / 2;
+            let mut b = [rm::EMPTY; 64];
+            let mut ks = [0usize; 4];
+            for k in ks.iter_mut() {
+                *k = kinds[(x % nk) as usize];
+                x /= nk;
+            }
+            let q = quads[x as usize];
+            for i in 0..4 {
+                b[q[i] as usize] = kind_cell(ks[i]);
+            }
+            if legal(&b) {
+                Some((b, side))
+            } else {
+                None
+            }
+        }),
+    }
+}
